@@ -19,6 +19,8 @@ def jobs_for(tier, rng):
             m["render"]["has_init_policy"] = True
             m["render"]["init_policy_on_instance"] = rng.random() < 0.4
             m["pol0"] = [rng.randrange(na) for _ in range(ns)]
+        elif k % 3 == 1:
+            gen.int_valued_pol0(rng, m)       # whole-number starting actions returned as integers, float action space
         g = rng.choice([[1, 4], [1, 2], [1, 2], [3, 4]])
         if rng.random() < 0.2:
             gen.fix_dups(m)
